@@ -5,7 +5,7 @@ spec = {
   'cfg': {TransferConfig kwargs},
   'chooser': {'kind': 'random'|'pct'|'first'|'replay', 'seed': n, 'choices': [...]},
   's3_fault': {'idx': request index, 'when': 'before'|'after'} | None,
-  'get_fault': {'range_idx': i, 'attempts': n, 'after': k bytes, 'exc': 'timeout'|'fatal'} | None,
+  'get_fault': {'range_idx': i, 'attempts': n, 'after': k bytes, 'exc': 'timeout'|'fatal'|'oserror'} | None,
   'fs_fault': {'op': 'open'|'write'|'close'|'rename', 'nth': i} | None,
   'read_fault': {'nth': i} | None,                 (source stream read raises)
   'cancel': {'how': 'future'|'shutdown'|'exit_exc'|'exit_kbi'|'result_kbi'|'controller', 'at': step, 'msg': str} | None,
@@ -122,7 +122,9 @@ def run(spec, keep_tmp=False, sample=None):
             def get_script(kw, att):
                 seen = get_script.ranges.setdefault(kw.get('Range'), len(get_script.ranges))
                 if seen == getf['range_idx'] and att < getf['attempts']:
-                    exc = socket.timeout('injected') if getf['exc'] == 'timeout' else fakes3.FakeFault('stream')
+                    exc = socket.timeout('injected') if getf['exc'] == 'timeout' else \
+                        PermissionError('injected (not a retryable stream error)') if getf['exc'] == 'oserror' else \
+                        fakes3.FakeFault('stream')
                     return {'fail_after': getf['after'], 'exc': exc, 'read_sizes': getf.get('read_sizes')}
                 return {'read_sizes': getf.get('read_sizes')}
             get_script.ranges = {}
